@@ -102,6 +102,58 @@ Proof.
   unfold col in L. now rewrite !map_length in L.
 Qed.
 
+
+(* ---- the reference product itself: what "each element of the Cartesian product exactly once" means ---- *)
+Lemma prod_spec ss : forall tup, In tup (prod ss) <-> Forall2 (fun a s => In a s) tup ss.
+Proof.
+  induction ss as [|h t IH]; intros tup; simpl.
+  - split; [intros [<-|[]]; constructor|intros H; inversion H; auto].
+  - rewrite in_flat_map. split.
+    + intros [a [Ha Hm]]. apply in_map_iff in Hm. destruct Hm as [r [<- Hr]]. constructor; auto. apply IH. exact Hr.
+    + intros H. inversion H; subst. exists x. split; auto. apply in_map. apply IH. assumption.
+Qed.
+
+Fixpoint lprod (ss : list (list A)) : nat := match ss with [] => 1 | h :: t => length h * lprod t end.
+
+Lemma flat_map_const_length {B} (h : list B) (f : B -> list (list A)) n :
+  (forall a, length (f a) = n) -> length (flat_map f h) = length h * n.
+Proof. intros H. induction h as [|a r IH]; simpl; auto. rewrite app_length, H, IH. lia. Qed.
+
+Lemma prod_length ss : length (prod ss) = lprod ss.
+Proof.
+  induction ss as [|h t IH]; simpl; auto.
+  rewrite (flat_map_const_length h _ (lprod t)); auto. intros a. rewrite map_length. exact IH.
+Qed.
+
+Lemma nodup_flat_map_disjoint {B} (h : list B) (f : B -> list (list A)) :
+  NoDup h -> (forall a, In a h -> NoDup (f a)) ->
+  (forall a b x, In a h -> In b h -> a <> b -> In x (f a) -> ~ In x (f b)) -> NoDup (flat_map f h).
+Proof.
+  induction h as [|a r IH]; intros ND Hf Hd; simpl; [constructor|].
+  inversion ND; subst.
+  assert (G : forall l1 l2 : list (list A), NoDup l1 -> NoDup l2 -> (forall x, In x l1 -> ~ In x l2) -> NoDup (l1 ++ l2)).
+  { induction l1 as [|y l1 IHl]; simpl; intros l2 N1 N2 D; auto. inversion N1; subst. constructor.
+    - rewrite in_app_iff. intros [E|E]; [contradiction|]. apply (D y); [left; reflexivity|exact E].
+    - apply IHl; auto. }
+  apply G.
+  - apply Hf. left; reflexivity.
+  - apply IH; auto. + intros b Hb. apply Hf. right; exact Hb. + intros b c x Hb Hc. apply Hd; right; assumption.
+  - intros x Hx Hin. apply in_flat_map in Hin. destruct Hin as [b [Hb Hxb]].
+    apply (Hd a b x); auto. + left; reflexivity. + right; exact Hb. + intros ->. contradiction.
+Qed.
+
+(* with duplicate-free input streams every combination occurs exactly once *)
+Theorem prod_nodup ss : Forall (@NoDup A) ss -> NoDup (prod ss).
+Proof.
+  induction ss as [|h t IH]; intros H; simpl.
+  - constructor; [intros []|constructor].
+  - inversion H; subst. apply nodup_flat_map_disjoint; auto.
+    + intros a _. specialize (IH H3). clear -IH. induction (prod t) as [|y l IHl]; simpl; [constructor|].
+      inversion IH; subst. constructor; auto. intros Hin. apply in_map_iff in Hin. destruct Hin as [z [E Hz]]. inversion E; subst. contradiction.
+    + intros a b x _ _ Hab Hx Hy. apply in_map_iff in Hx. apply in_map_iff in Hy.
+      destruct Hx as [r1 [<- _]]. destruct Hy as [r2 [E _]]. inversion E. congruence.
+Qed.
+
 End Comb.
 Print Assumptions comb_is_product.
 Eval vm_compute in comb nat [[1;2];[10;20;30]].
